@@ -193,6 +193,18 @@ pub fn execute(plan: &C17Plan) -> (Option<C17Violation>, C17Stats) {
     if consumed < l {
         probe!("file-with-unread-trailing-bytes");
     }
+    // Where the file really ends. For generated files this is the writer's knowledge (everything
+    // but the appended garbage belongs to the model file), NOT what the reader under test happens
+    // to consume: a reader that stops decoding early would otherwise define its own unread tail
+    // and every truncation inside it would count as "complete". For the repository's sample file
+    // (8 trailing bytes of unknown meaning) only the measured value is available.
+    let file_end = match &plan.src {
+        KySrc::Spec(spec) => l - spec.trailing_garbage.len(),
+        _ => consumed,
+    };
+    if consumed < file_end {
+        probe!("reader-stops-before-the-end-of-the-generated-file");
+    }
     if l > 6000 {
         probe!("large-file(crash points sampled, not exhaustive)");
     }
@@ -336,23 +348,23 @@ pub fn execute(plan: &C17Plan) -> (Option<C17Violation>, C17Stats) {
                     }
                 });
                 st.fired.add(&fired);
-                let sig = if p < consumed { "inside-consumed-region" } else { "inside-unread-tail" };
+                let sig = if p < file_end { "inside-consumed-region" } else { "inside-unread-tail" };
                 match r {
                     None => fail!("K3:panic", "K3", p, sig, format!("variant {variant}, EOF at byte {p} of {l}: {}", last_panic())),
                     Some(Ok(b)) => {
                         if b != reference {
-                            fail!("K3:prefix-accepted-as-different-model", "K3", p, sig, format!("variant {variant}, EOF at byte {p} of {l} (reader consumes {consumed})"));
+                            fail!("K3:prefix-accepted-as-different-model", "K3", p, sig, format!("variant {variant}, EOF at byte {p} of {l} (file ends at {file_end}, reader consumes {consumed})"));
                         }
-                        if p < consumed {
-                            fail!("K3:prefix-accepted", "K3", p, sig, format!("variant {variant}, EOF at byte {p} of {l}, inside the {consumed} bytes the reader consumes"));
+                        if p < file_end {
+                            fail!("K3:prefix-accepted", "K3", p, sig, format!("variant {variant}, EOF at byte {p} of {l}: a proper prefix of the {file_end}-byte model file was accepted (the reader consumes {consumed} bytes)"));
                         }
                         st.accepted_identical_prefixes += 1;
                     }
                     Some(Err(e)) => {
-                        if p >= consumed {
-                            fail!("K3:complete-prefix-rejected", "K3", p, sig, format!("variant {variant}: all {consumed} consumed bytes present but rejected: {e}"));
+                        if p >= file_end {
+                            fail!("K3:complete-prefix-rejected", "K3", p, sig, format!("variant {variant}: all {file_end} bytes of the file present but rejected: {e}"));
                         }
-                        if p == consumed - 1 {
+                        if p == file_end - 1 {
                             probe!("truncation-at-last-consumed-byte");
                         }
                     }
@@ -442,15 +454,15 @@ pub fn execute(plan: &C17Plan) -> (Option<C17Violation>, C17Stats) {
         }
         // (multi-megabyte files: the complete conversion only)
         for (ti, fr) in plan.tool_truncations.iter().enumerate().take(if l > 200_000 { 1 } else { 3 }) {
-            let p = if ti == 0 { consumed - 1 } else { usize::from(*fr) * consumed / 65536 };
+            let p = if ti == 0 { file_end - 1 } else { usize::from(*fr) * file_end / 65536 };
             st.attempts += 1;
             st.faulted_attempts += 1;
             if let Some((code, stderr, _)) = run_tool(&f[..p]) {
                 if stderr.contains("panicked at") {
-                    fail!("T2:tool-crash-on-truncated-file", "T", p, "convert-tool", format!("file cut at {p} of {consumed} consumed bytes: {}", stderr.lines().find(|l| l.contains("panicked at")).unwrap_or("")));
+                    fail!("T2:tool-crash-on-truncated-file", "T", p, "convert-tool", format!("file cut at {p} of {file_end} bytes: {}", stderr.lines().find(|l| l.contains("panicked at")).unwrap_or("")));
                 }
                 if code == Some(0) {
-                    fail!("T2:tool-accepts-truncated-file", "T", p, "convert-tool", format!("file cut at {p} of {consumed} consumed bytes was converted with exit status 0"));
+                    fail!("T2:tool-accepts-truncated-file", "T", p, "convert-tool", format!("file cut at {p} of {file_end} bytes was converted with exit status 0"));
                 }
                 probe!("convert-tool-rejects-truncated-file");
             }
